@@ -189,12 +189,103 @@ def greedy (gs : List (List String)) : String :=
     | _, _ => "reject parse"
   | _ => "reject parse groups"
 
+/-! ## unit-level requests (strengthening round): one model function per request, many
+arguments per line (`;`-separated inside the last group) -/
+
+/-- split a token list at the token `;` -/
+def splitSemi (ts : List String) : List (List String) :=
+  let r := ts.foldl (fun (acc : List (List String) × List String) t =>
+    if t == ";" then (acc.1 ++ [acc.2], []) else (acc.1, acc.2 ++ [t])) ([], [])
+  r.1 ++ [r.2]
+
+def showOptL : Option (List Nat) → String
+  | none => "R"
+  | some l => "[" ++ showList l ++ "]"
+
+/-- `canexe | N a b .. | pi | loc ; loc ; ..` : `_can_exe` of a non-free operation at every
+listed logical location: `T` / `F` / `R` (get_subgraph raises) -/
+def unitCanExe (gs : List (List String)) : String :=
+  match gs with
+  | [_, gm, gpi, glocs] =>
+    match nats gm, nats gpi with
+    | some (bigN :: es), some π =>
+      match mk? (parsePairs es) (some bigN) with
+      | none => "reject graph"
+      | some g =>
+        " ".intercalate ((splitSemi glocs).map (fun l =>
+          match nats l with
+          | none => "?"
+          | some loc =>
+            match canExe (fun _ => false) g π ⟨1, [], loc, loc.map (fun _ => 2)⟩ with
+            | none => "R"
+            | some true => "T"
+            | some false => "F"))
+    | _, _ => "reject parse"
+  | _ => "reject parse groups"
+
+/-- `aswap | pi | a b ; a b ; ..` : `_apply_swap` on `pi`, each pair independently -/
+def unitSwap (gs : List (List String)) : String :=
+  match gs with
+  | [_, gpi, gsw] =>
+    match nats gpi with
+    | some π =>
+      " ".intercalate ((splitSemi gsw).map (fun l =>
+        match nats l with
+        | some [a, b] => showOptL (applySwap π a b)
+        | _ => "?"))
+    | none => "reject parse"
+  | _ => "reject parse groups"
+
+/-- `aperm | pi | perm ; perm ; ..` : `_apply_perm(perm, pi)`, each independently -/
+def unitPerm (gs : List (List String)) : String :=
+  match gs with
+  | [_, gpi, gp] =>
+    match nats gpi with
+    | some π =>
+      " ".intercalate ((splitSemi gp).map (fun l =>
+        match nats l with
+        | some p => showOptL (applyPerm p π)
+        | none => "?"))
+    | none => "reject parse"
+  | _ => "reject parse groups"
+
+/-- `mv | N a b .. | pi | swapgid radix | emitted ops (or -) | s a b / u a b ; ..` : one
+machine step (`step`) from the state (no remaining op, `pi`, emitted list), each move
+independently: new `pi` and length of the emitted list, or `X` when the move is rejected.
+A trailing op text `gid;;a,b;r,r` with `gid = swapgid` is an emitted swap. -/
+def unitMove (gs : List (List String)) : String :=
+  match gs with
+  | [_, gm, gpi, gswap, gout, gmv] =>
+    match nats gm, nats gpi, nats gswap with
+    | some (bigN :: es), some π, some [swapGid, _] =>
+      match mk? (parsePairs es) (some bigN),
+            (if gout == ["-"] then some [] else gout.mapM parseOp) with
+      | some g, some outOps =>
+        let out : List Em := outOps.map (fun o =>
+          match o.loc with
+          | [a, b] => if o.gid == swapGid then .swap a b else .gate o
+          | _ => .gate o)
+        " ".intercalate ((splitSemi gmv).map (fun l =>
+          match parseMoves l with
+          | some [m] =>
+            match step (fun _ => false) g ⟨[], π, out⟩ m with
+            | none => "X"
+            | some s => "[" ++ showList s.pi ++ "]/" ++ toString s.out.length
+          | _ => "?"))
+      | _, _ => "reject graph"
+    | _, _, _ => "reject parse"
+  | _ => "reject parse groups"
+
 def handle (line : String) : String :=
   let gs := groups line
   match gs.head? with
   | some ["wf"] => wf false gs
   | some ["wfi"] => wf true gs
   | some ["greedy"] => greedy gs
+  | some ["canexe"] => unitCanExe gs
+  | some ["aswap"] => unitSwap gs
+  | some ["aperm"] => unitPerm gs
+  | some ["mv"] => unitMove gs
   | _ => "reject unknown request"
 
 def main : IO Unit := do
